@@ -17,6 +17,9 @@ use sudachi::dic::storage::{Storage, SudachiDicData};
 use sudachi::dic::word_id::WordId;
 use sudachi::dic::{DictionaryLoader, LoadedDictionary};
 
+#[path = "c05_routes.rs"]
+pub mod routes;
+
 pub const KNOWN_USER_DICFORM: &str = "c05_user_dicform_ref";
 
 // ---------------------------------------------------------------- compact Coq literals
@@ -107,6 +110,33 @@ const KANJI: &[char] = &['京', '都', '東', '行', '日', '本', '語', '一']
 const ASCII: &[char] = &['a', 'b', 'c', 'x', 'y', 'Z', '0', '7', '-', '.', ' '];
 const ASTRAL: &[char] = &['𠮟', '💞', '\u{10FFFF}', '\u{10000}', '𩸽'];
 const EDGE: &[char] = &['\u{7f}', '\u{80}', '\u{7ff}', '\u{800}', '\u{d7ff}', '\u{e000}', '\u{ffff}', 'é', 'Ω'];
+
+/// texts that mean something in OTHER columns of the lexicon format (placeholder, separators, references, numbers, split
+/// modes, an inline reference, quoting); in the index-form / headword / reading / normalized-form columns they are data
+pub const SPECIAL: &[&str] = &[
+    "*", "", "/", "U1", "U0", "0", "1", "-1", "+0", "A", "C", "BC", ",", "\"", "#", "**", "*/*", "u1", "＊", " * ", "\\", "a,b,c,d,e,f,g,h", "0/1", "NULL",
+];
+/// which columns of a directed row carry the special text
+#[derive(Clone, Copy, Debug, PartialEq)]
+pub enum SpecialCols {
+    All,
+    Headword,
+    Reading,
+    Norm,
+    ReadingNorm,
+    IndexForm,
+}
+pub const SPECIAL_COLS: &[SpecialCols] = &[SpecialCols::All, SpecialCols::Headword, SpecialCols::Reading, SpecialCols::Norm, SpecialCols::ReadingNorm, SpecialCols::IndexForm];
+/// rows of a directed lexicon
+pub const SPECIAL_ROWS: usize = 7;
+/// number of directed lexicons that together carry every (columns, special text) combination once
+pub fn special_cases() -> usize {
+    (SPECIAL.len() * SPECIAL_COLS.len() + SPECIAL_ROWS - 1) / SPECIAL_ROWS
+}
+fn special_combo(d: usize, i: usize) -> (SpecialCols, &'static str) {
+    let k = (d * SPECIAL_ROWS + i) % (SPECIAL.len() * SPECIAL_COLS.len());
+    (SPECIAL_COLS[k / SPECIAL.len()], SPECIAL[k % SPECIAL.len()])
+}
 
 fn gen_char(rng: &mut Rng) -> char {
     match rng.below(16) {
@@ -411,8 +441,13 @@ fn gen_ids(rng: &mut Rng, n_sys: usize, n_user: usize, user: bool, sink: &mut Si
 
 /// `sys`: the system lexicon a user lexicon is built against
 pub fn gen_lex(rng: &mut Rng, sink: &mut Sink, pool: &[Pos], sys: Option<&Lex>, ids_below: i16, big: bool, findings: bool) -> Lex {
+    gen_lex_with(rng, sink, pool, sys, ids_below, big, findings, None)
+}
+/// `special`: Some(d) = the d-th directed lexicon: SPECIAL_ROWS rows, row i carries special_combo(d, i)
+#[allow(clippy::too_many_arguments)]
+pub fn gen_lex_with(rng: &mut Rng, sink: &mut Sink, pool: &[Pos], sys: Option<&Lex>, ids_below: i16, big: bool, findings: bool, special: Option<usize>) -> Lex {
     let user = sys.is_some();
-    let n = 1 + rng.below(7) as usize;
+    let n = if special.is_some() { SPECIAL_ROWS } else { 1 + rng.below(7) as usize };
     let n_sys = sys.map(|s| s.rows.len()).unwrap_or(n);
     let mut rows: Vec<Row> = vec![];
     for i in 0..n {
@@ -435,33 +470,82 @@ pub fn gen_lex(rng: &mut Rng, sink: &mut Sink, pool: &[Pos], sys: Option<&Lex>, 
         } else {
             surface
         };
+        let surface = if special.is_none() && rng.chance(1, 24) {
+            sink.tag("index_form_is_a_text_special_elsewhere");
+            rng.pick(&SPECIAL[..]).to_string()
+        } else {
+            surface
+        };
+        let surface = if surface.is_empty() { "*".to_string() } else { surface };
         let headword = match rng.below(40) {
             0 => String::new(),
-            1..=6 => gen_text(rng, sink, false),
+            1..=5 => gen_text(rng, sink, false),
+            6 | 7 => {
+                sink.tag("headword_is_a_text_special_elsewhere");
+                rng.pick(&SPECIAL[..]).to_string()
+            }
             _ => surface.clone(),
         };
-        let form = |rng: &mut Rng, sink: &mut Sink| match rng.below(10) {
+        let form = |rng: &mut Rng, sink: &mut Sink, headword: &str| match rng.below(10) {
             0 => {
                 sink.tag("form_empty");
                 String::new()
             }
             1..=4 => {
                 sink.tag("form_equal_headword");
-                headword.clone()
+                headword.to_string()
+            }
+            5 => {
+                sink.tag("form_is_a_text_special_elsewhere");
+                rng.pick(&SPECIAL[..]).to_string()
             }
             _ => gen_text(rng, sink, false),
         };
-        let reading = form(rng, sink);
-        let norm = form(rng, sink);
+        let reading = form(rng, sink, &headword);
+        let norm = form(rng, sink, &headword);
+        // directed rows: the special text in the chosen columns, the other form columns different from it
+        let (surface, headword, reading, norm) = match special {
+            None => (surface, headword, reading, norm),
+            Some(d) => {
+                let (cols, t) = special_combo(d, i);
+                let t = t.to_string();
+                let nonempty = if t.is_empty() { "*".to_string() } else { t.clone() };
+                let other = |x: String, rng: &mut Rng| if x == t || x.is_empty() { format!("{}{}", gen_short(rng), "語") } else { x };
+                sink.tag(&format!("directed:{:?}={:?}", cols, t));
+                match cols {
+                    SpecialCols::All => (nonempty.clone(), t.clone(), t.clone(), t),
+                    SpecialCols::Headword => {
+                        let s2 = other(surface, rng);
+                        (s2, t, reading, norm)
+                    }
+                    SpecialCols::Reading => {
+                        let h = other(headword, rng);
+                        (surface, h, t, norm)
+                    }
+                    SpecialCols::Norm => {
+                        let h = other(headword, rng);
+                        (surface, h, reading, t)
+                    }
+                    SpecialCols::ReadingNorm => {
+                        let h = other(headword, rng);
+                        (surface, h, t.clone(), t)
+                    }
+                    SpecialCols::IndexForm => {
+                        let h = other(headword, rng);
+                        (nonempty, h, reading, norm)
+                    }
+                }
+            }
+        };
         let mode = *rng.pick(&["A", "A", "B", "C", "*", "a", "c", "BC", " A", "b\t", "\u{3000}C ", "a\u{a0}", " BC", "\u{2003}*"]);
         let modeless = mode.trim() == "A" || mode.trim() == "a";
         let mut split_a = if modeless { vec![] } else { gen_ids(rng, n_sys, n, user, sink) };
         let mut split_b = if modeless { vec![] } else { gen_ids(rng, n_sys, n, user, sink) };
         // inline references: aimed at an earlier own row or a system row whose surface equals its headword
         if !modeless && rng.chance(1, 4) {
-            let mut cands: Vec<&Row> = rows.iter().filter(|r| r.surface == r.headword && !r.reading.is_empty() && r.surface.len() < 300 && r.reading.len() < 300 && !r.surface.contains(&[',', '/'][..])).collect();
+            let mut cands: Vec<&Row> = rows.iter().filter(|r| r.surface == r.headword && !r.reading.is_empty() && r.surface.len() < 300 && r.reading.len() < 300 && !r.surface.contains(&[',', '/'][..]) && !r.reading.contains('/')).collect();
             if let Some(s) = sys {
-                cands.extend(s.rows.iter().filter(|r| r.surface == r.headword && !r.reading.is_empty() && r.surface.len() < 300 && r.reading.len() < 300 && !r.surface.contains(&[',', '/'][..])));
+                cands.extend(s.rows.iter().filter(|r| r.surface == r.headword && !r.reading.is_empty() && r.surface.len() < 300 && r.reading.len() < 300 && !r.surface.contains(&[',', '/'][..]) && !r.reading.contains('/')));
             }
             if !cands.is_empty() {
                 let t = *rng.pick(&cands);
@@ -521,7 +605,7 @@ pub fn gen_lex(rng: &mut Rng, sink: &mut Sink, pool: &[Pos], sys: Option<&Lex>, 
         };
         // homonyms: a row with the index form, headword, POS and reading of an earlier own row or of a system row, so that
         // inline references meet several candidates (first own row wins, own rows win over system rows)
-        if i > 0 && rng.chance(1, 7) {
+        if i > 0 && special.is_none() && rng.chance(1, 7) {
             let mut cands: Vec<&Row> = rows.iter().filter(|r| r.surface.len() < 300).collect();
             if let Some(s) = sys {
                 cands.extend(s.rows.iter().filter(|r| r.surface.len() < 300));
@@ -545,7 +629,7 @@ pub fn gen_lex(rng: &mut Rng, sink: &mut Sink, pool: &[Pos], sys: Option<&Lex>, 
             continue;
         }
         let cands: Vec<usize> = (i + 1..rows.len())
-            .filter(|j| rows[*j].surface == rows[*j].headword && !rows[*j].reading.is_empty() && rows[*j].surface.len() < 300 && rows[*j].reading.len() < 300 && !rows[*j].surface.contains(&[',', '/'][..]))
+            .filter(|j| rows[*j].surface == rows[*j].headword && !rows[*j].reading.is_empty() && rows[*j].surface.len() < 300 && rows[*j].reading.len() < 300 && !rows[*j].surface.contains(&[',', '/'][..]) && !rows[*j].reading.contains('/'))
             .collect();
         if cands.is_empty() {
             continue;
@@ -987,11 +1071,16 @@ pub fn add_user_refs(lex: &mut Lex, rng: &mut Rng, sink: &mut Sink) {
 }
 
 pub fn gen_case(rng: &mut Rng, sink: &mut Sink, want_user: bool, big: bool, findings: bool) -> Case {
+    gen_case_with(rng, sink, want_user, big, findings, None)
+}
+/// `special`: Some(d) = the lexicon under test (the system lexicon, or the first user lexicon when there is one) is the d-th
+/// directed lexicon of gen_lex_with
+pub fn gen_case_with(rng: &mut Rng, sink: &mut Sink, want_user: bool, big: bool, findings: bool, special: Option<usize>) -> Case {
     let pool = gen_pos_pool(rng, sink);
     let matrix = gen_matrix(rng);
     let ids = matrix.nl.min(matrix.nr) as i16;
-    let sys = gen_lex(rng, sink, &pool, None, ids, big && !want_user, false);
-    let user = if want_user { Some(gen_lex(rng, sink, &pool, Some(&sys), ids, big, findings)) } else { None };
+    let sys = gen_lex_with(rng, sink, &pool, None, ids, big && !want_user, false, if want_user { None } else { special });
+    let user = if want_user { Some(gen_lex_with(rng, sink, &pool, Some(&sys), ids, big, findings, special)) } else { None };
     let user2 = if want_user {
         let mut l = gen_lex(rng, sink, &pool, Some(&sys), ids, false, false);
         add_user_refs(&mut l, rng, sink);
@@ -1613,15 +1702,15 @@ fn second_process(args: &Args, sink: &mut Sink, c: &Case, bytes: &[u8], k: usize
     }
 }
 
-fn case_from_state(state: u64, user: bool, big: bool, findings: bool, sink: &mut Sink) -> Case {
+fn case_from_state(state: u64, user: bool, big: bool, findings: bool, special: Option<usize>, sink: &mut Sink) -> Case {
     let mut r = Rng(state);
-    gen_case(&mut r, sink, user, big, findings)
+    gen_case_with(&mut r, sink, user, big, findings, special)
 }
 
 pub fn run(args: &Args) {
     let mut sink = Sink::new("C05", &args.out, &["Model.Codec", "Model.CodecIO", "Model.CodecResolve", "Model.CodecCsv", "Model.CodecCheck"], args.seed, &args.tier);
     sink.shard_size = 40;
-    sink.rule("random lexicons of 1..7 rows (strings of 1..3 chars or 126/127/128/129/255..257/32766/32767 UTF-16 units mixing kana, kanji, ASCII, U+7F/80/7FF/800/D7FF/E000/FFFF and astral characters, \\uXXXX and \\u{X} escapes, forms empty / equal to the headword / different, index form of 126..128 bytes, arrays of 0/1/2/127 ids, numeric, U-prefixed and inline references, dictionary-form references, synonym column present/absent/empty) x matrices 1..5 x 1..5 (non-square, duplicated and missing cells, extreme costs) x system / user dictionary; non-trivial = at least two rows (system) or a user dictionary; distinct by generated Coq term");
+    sink.rule("random lexicons of 1..7 rows (strings of 1..3 chars or 126/127/128/129/255..257/32766/32767 UTF-16 units mixing kana, kanji, ASCII, U+7F/80/7FF/800/D7FF/E000/FFFF and astral characters, \\uXXXX and \\u{X} escapes, forms empty / equal to the headword / different, index form of 126..128 bytes, arrays of 0/1/2/127 ids, numeric, U-prefixed and inline references, dictionary-form references, synonym column present/absent/empty; form columns drawn from the texts that are special elsewhere in the format) x matrices 1..5 x 1..5 (non-square, duplicated and missing cells, extreme costs) x system / user dictionary; non-trivial = at least two rows (system) or a user dictionary; distinct by generated Coq term; first the directed lexicons (7 rows each: every form-column set x every special text, system and user); then the command-line and Python build routes with 2..3 lexicon files in 7 orders (non-alphabetical, repeated path, sub-directory, alphabetical) for system and user dictionaries");
     if let Some(p) = &args.replay {
         let v: Value = serde_json::from_str(&std::fs::read_to_string(p).unwrap()).unwrap();
         let case = &v["case"];
@@ -1633,8 +1722,13 @@ pub fn run(args: &Args) {
             sink.finish();
             return;
         }
+        if case["kind"] == "c05-route" {
+            routes::replay_route(&mut sink, args, case);
+            sink.finish();
+            return;
+        }
         if let Some(st) = case["rng"].as_u64() {
-            let c = case_from_state(st, case["user"].as_bool().unwrap_or(false), case["big"].as_bool().unwrap_or(false), case["findings"].as_bool().unwrap_or(false), &mut sink);
+            let c = case_from_state(st, case["user"].as_bool().unwrap_or(false), case["big"].as_bool().unwrap_or(false), case["findings"].as_bool().unwrap_or(false), case["special"].as_u64().map(|d| d as usize), &mut sink);
             run_case(&mut sink, &c, case.clone(), true);
         } else {
             println!("this case kind has no replay: {}", case);
@@ -1647,13 +1741,18 @@ pub fn run(args: &Args) {
     // (its rows are not in model vocabulary); then the generated streams
     let n = args.n(540, 9000);
     let mut procs = 0usize;
-    for k in 0..n {
-        let user = k % 3 == 2;
-        let big = k % 97 == 6;
-        let findings = user && k % 2 == 0;
+    // directed lexicons first: every (form columns, text that is special elsewhere in the format) combination, as a system
+    // lexicon and as a user lexicon -- whatever the seed
+    let directed = 2 * special_cases();
+    for k0 in 0..directed + n {
+        let special = if k0 < directed { Some(k0 / 2) } else { None };
+        let k = if k0 < directed { 0 } else { k0 - directed };
+        let user = if k0 < directed { k0 % 2 == 1 } else { k % 3 == 2 };
+        let big = special.is_none() && k % 97 == 6;
+        let findings = special.is_none() && user && k % 2 == 0;
         let st = rng.next();
-        let c = case_from_state(st, user, big, findings, &mut sink);
-        let desc = json!({"kind": "c05", "rng": st, "user": user, "big": big, "findings": findings,
+        let c = case_from_state(st, user, big, findings, special, &mut sink);
+        let desc = json!({"kind": "c05", "rng": st, "user": user, "big": big, "findings": findings, "special": special,
                           "csv": if c.sys_csv.len() < 1500 { c.sys_csv.clone() } else { format!("{} bytes", c.sys_csv.len()) },
                           "matrix": c.matrix_text, "user_csv": if c.user_csv.len() < 1500 { c.user_csv.clone() } else { format!("{} bytes", c.user_csv.len()) }});
         run_case(&mut sink, &c, desc, false);
@@ -1664,6 +1763,8 @@ pub fn run(args: &Args) {
             }
         }
     }
+    // the other public routes to the compiler (command-line tool, Python functions) with several lexicon files
+    routes::run_routes(&mut sink, &mut rng, args);
     malformed(&mut sink, &mut rng, args.n(12, 60));
     rejected_rows(&mut sink, &mut rng, args.n(140, 1400));
     sink.finish();
